@@ -126,6 +126,30 @@ def elements_type(s, x):
         base = x[3][1]
         if x[3] == Elem(base, x[4]):
             return elements_type(s, base)  # [e for e in base]: same elements
+    # the same elements in another container or order
+    if is_call(x, ("builtin:sorted", "builtin:list", "builtin:tuple", "builtin:reversed", "builtin:set", "builtin:frozenset", "builtin:iter")) and len(x[2]) == 1:
+        return elements_type(s, x[2][0])
+    if is_call(x, "method:keys") and len(x[2]) == 1:
+        return elements_type(s, x[2][0])  # (iterating a dict gives its keys)
+    if isinstance(x, tuple) and len(x) == 2 and x[0] == "global" and x[1].startswith("const:"):
+        try:
+            from rules.hexlang import current
+
+            w_ = current()
+        except ImportError:
+            w_ = None
+        lit0 = w_.eng.const_literal(x[1][6:]) if w_ is not None else None
+        if lit0 is not None and is_lit(lit0) and lit0[1] in ("list", "tuple", "set") and not w_.eng.is_rebound(*x[1][6:].rsplit(".", 1)):
+            ts0 = [s.types(i) for i in lit0[2]]
+            if all(t is not None for t in ts0):
+                return frozenset().union(*ts0) if ts0 else frozenset()
+    if isinstance(x, tuple) and len(x) == 5 and x[0] == "comp" and x[1] in ("list", "gen", "set") and isinstance(x[3], tuple):
+        elt = x[3]
+        if is_call(elt, ("builtin:str", "builtin:repr", "builtin:ascii", "builtin:format", "method:format", "method:join", "method:hex")) or (elt and elt[0] == "fstr") or (len(elt) == 3 and elt[0] == "attr" and elt[2] in ("__name__", "__qualname__", "__module__")):
+            return frozenset(["str"])  # [ascii(v) for v in ...]: every element is a str
+        te = s.types(elt)
+        if te is not None and is_const(elt):
+            return te
     for f in s.closure():
         if f[0] == "forall" and f[1] == x:
             el = Elem(f[1], f[2])
@@ -458,8 +482,18 @@ def b_zip(c):
             if not hasattr(x, "lineno"):
                 _ast.copy_location(x, e)
         _ast.fix_missing_locations(lc)
-        for s2, k2, p2 in c.w.expr(lc, c.s):
+        res = list(c.w.expr(lc, c.s))
+        vals = [p2 for _s2, k2, p2 in res if k2 == "val"]
+        for s2, k2, p2 in res:
             s2.env.pop("$m", None)
+            if k2 == "raise" and getattr(p2, "exc", None) == "StopIteration":
+                # a StopIteration coming out of the function handed to map()/filter() is taken by
+                # whoever consumes the iterator for the end of the data: the iteration stops there,
+                # silently (PEP 479 protects generator bodies only)
+                s3 = s2.copy()
+                s3.ev("iteration-cut-short", c.site, c.callee, p2.chain, p2.why)
+                c.outs.append((s3, "val", vals[0] if vals else Fresh(c.callee[8:])))
+                continue
             c.outs.append((s2, k2, p2))
         return
     c.ret(Fresh(c.callee[8:]), pure=False)
@@ -580,6 +614,10 @@ def b_print(c):
     unsafe = [lf for lf in leaves if not ascii_safe_leaf(c, lf)]
     s1 = c.s.copy()
     s1.ev("print", c.site, tuple(leaves), tuple(unsafe))
+    if file_kw is not None and file_kw[0] == "param":
+        c.rz("ValueError", "print to a stream object captured when a function was defined (a default `file=sys.stdout`): it may have been closed or replaced since (I/O operation on closed file)", [("captured-stream", file_kw)], pure=False)
+    if file_kw is not None and is_call(file_kw, "captured-at-definition"):
+        c.rz("ValueError", "print to the stream object that was sys.%s when the function was defined: it may have been closed or replaced since (I/O operation on closed file)" % file_kw[2][0][1].rsplit(".", 1)[-1], [], pure=False)
     if unsafe and to_stream:
         for lf in unsafe:
             # (conditional on the piece not being validated hexadecimal text, so that a caller of a
@@ -954,8 +992,12 @@ def x_dump(c):
 @ext("json.load", "json.loads")
 def x_load(c):
     c.rz("ValueError", "json.load of malformed JSON / undecodable bytes", pure=False)
-    c.rz("OSError", "read failure", pure=False)
-    c.rz("TypeError", "json.load of a wrong argument", pure=False)
+    if c.callee.endswith("json.load"):
+        c.rz("OSError", "read failure", pure=False)  # (json.loads reads nothing)
+    a0 = c.args[0] if c.args else None
+    t0 = c.types(a0) if a0 is not None else None
+    if not (c.callee.endswith("loads") and t0 is not None and t0 <= {"str", "bytes", "bytearray"}):
+        c.rz("TypeError", "json.load of a wrong argument", [("nottype", a0, frozenset(["str", "bytes", "bytearray"]))] if c.callee.endswith("loads") and a0 is not None else [], pure=False)
     t = None
     if c.callee.endswith("loads") and len(c.args) == 1 and not c.kwargs and is_call(c.args[0], "method:read") and len(c.args[0][2]) == 1:
         # json.loads(fp.read()) is what json.load(fp) does: one term for both spellings
@@ -1611,6 +1653,9 @@ def m_encode(c):
     r = c.recv
     safe = is_call(r, "ext:json.dumps") and not any(n == "ensure_ascii" and not (is_const(v) and v[2] is True) for n, v in r[3])
     safe = safe or (is_const(r) and isinstance(r[2], str) and r[2].isascii()) or hex_validated(c.s, r)
+    errs = c.arg(1, "errors")
+    if errs is not None and is_const(errs) and errs[2] in ("backslashreplace", "replace", "ignore", "xmlcharrefreplace", "namereplace"):
+        safe = True  # an error handler that substitutes instead of raising
     if not safe:
         c.rz("UnicodeEncodeError", "encode() of text that may contain unencodable characters (lone surrogates)")
     enc = c.arg(0, "encoding")
@@ -2069,6 +2114,27 @@ def x_os_open(c):
     if pt is None or not pt <= {"str", "bytes"}:
         c.rz("TypeError", "os.open() of a non-path value", [("nottype", path, frozenset(["str", "bytes"]))], pure=False)
     c.ret(None, ("type", c.term, frozenset(["int"])), pure=False)
+
+
+@ext("math.isfinite", "math.isnan", "math.isinf")
+def x_isfinite(c):
+    """math.isfinite/isnan/isinf(x): x is converted to a C double first - TypeError for a value that is
+    not a real number, OverflowError for an int beyond the float range"""
+    x = c.arg(0, "x")
+    ts = c.types(x) if x is not None else None
+    if ts is None or not ts <= {"int", "float", "bool"}:
+        c.rz("TypeError", "%s() of a value that is not a real number" % c.callee[4:], [("nottype", x, frozenset(["int", "float", "bool"]))])
+    if ts is None or "int" in ts:
+        c.rz("OverflowError", "int too large to convert to float", [("type", x, frozenset(["int"]))])
+    c.ret(C(True), pure=False)
+    c.ret(C(False), pure=False)
+
+
+@ext("os.fsync", "os.fdatasync")
+def x_fsync(c):
+    """os.fsync(fd): flushes the file to disk; OSError if that fails"""
+    c.rz("OSError", "fsync failure", pure=False)
+    c.ret(C(None), pure=False)
 
 
 @ext("os.fspath")
